@@ -10,8 +10,9 @@
    DStride-th selected state.                                                                                *)
 EXTENDS EcCurves, Json, Integers
 CONSTANTS CurveNames, Bases, KFrom, KTo, Stride, DStride
-VARIABLES c, s, k, P, ext
-vars == << c, s, k, P, ext >>
+VARIABLES c, bs, kk, cur, ext      \* (not s, k, P: TLC start-up takes 30 s when variables share names with
+                                   \*  parameters of the recursive operators of EcGroup - measured, not understood)
+vars == << c, bs, kk, cur, ext >>
 
 KEnd(cv) == IF KTo = 0 THEN cv.n + 1 ELSE KTo
 B(cv, sv) == Mul(cv, sv, G(cv))
@@ -24,29 +25,29 @@ Ext(cv, sv, kv, Q) ==
           dbln |-> IF Deep(sv, kv) THEN [e \in 1..(cv.m + 1) |-> DblN(cv, Q, e)] ELSE << >> ]
 
 Init == /\ c \in { CurveByName(nm) : nm \in CurveNames }
-        /\ s \in Bases /\ k = KFrom
-        /\ P = Mul(c, KFrom, B(c, s))
-        /\ ext = Ext(c, s, KFrom, P)
-Step == /\ k < KEnd(c)
-        /\ k' = k + 1
-        /\ P' = Add(c, P, B(c, s))
-        /\ ext' = Ext(c, s, k + 1, P')
-        /\ UNCHANGED << c, s >>
+        /\ bs \in Bases /\ kk = KFrom
+        /\ cur = Mul(c, KFrom, B(c, bs))
+        /\ ext = Ext(c, bs, KFrom, cur)
+Step == /\ kk < KEnd(c)
+        /\ kk' = kk + 1
+        /\ cur' = Add(c, cur, B(c, bs))
+        /\ ext' = Ext(c, bs, kk + 1, cur')
+        /\ UNCHANGED << c, bs >>
 Next == Step
 Spec == Init /\ [][Next]_vars
 
 (* ---- checked by TLC on every state *)
-Closed  == OnCurve(c, P) /\ (Selected(s, k) => OnCurve(c, ext.dbl) /\ OnCurve(c, ext.next) /\ OnCurve(c, ext.prev))
-Cycle   == /\ (P = Inf <=> (k * s) % c.n = 0)                         \* ord(B) = n: no early return to Inf  (s < n)
-           /\ (k = c.n + 1 => P = B(c, s))
-Ladder  == (k % 64 = 0 \/ k >= c.n - 1) => P = Mul(c, k, B(c, s))        \* the walk is the double-and-add multiple
-Special == Deep(s, k) =>
-           /\ Mul(c, c.n, P) = Inf /\ Mul(c, c.n - 1, P) = ext.neg /\ Mul(c, c.n + 1, P) = P
-           /\ \A e \in 1..(c.m + 1) : ext.dbln[e] = Mul(c, Pow2(e), P)
-DblOk   == Selected(s, k) =>
-           /\ ext.dbl = Add(c, P, P) /\ Add(c, P, ext.neg) = Inf
-           /\ Add(c, ext.prev, G(c)) = P /\ Sub(c, ext.next, G(c)) = P
+Closed  == OnCurve(c, cur) /\ (Selected(bs, kk) => OnCurve(c, ext.dbl) /\ OnCurve(c, ext.next) /\ OnCurve(c, ext.prev))
+Cycle   == /\ (cur = Inf <=> (kk * bs) % c.n = 0)                         \* ord(B) = n: no early return to Inf  (bs < n)
+           /\ (kk = c.n + 1 => cur = B(c, bs))
+Ladder  == (kk % 64 = 0 \/ kk >= c.n - 1) => cur = Mul(c, kk, B(c, bs))        \* the walk is the double-and-add multiple
+Special == Deep(bs, kk) =>
+           /\ Mul(c, c.n, cur) = Inf /\ Mul(c, c.n - 1, cur) = ext.neg /\ Mul(c, c.n + 1, cur) = cur
+           /\ \A e \in 1..(c.m + 1) : ext.dbln[e] = Mul(c, Pow2(e), cur)
+DblOk   == Selected(bs, kk) =>
+           /\ ext.dbl = Add(c, cur, cur) /\ Add(c, cur, ext.neg) = Inf
+           /\ Add(c, ext.prev, G(c)) = cur /\ Sub(c, ext.next, G(c)) = cur
 
-Emit == PrintT(ToJson([gen |-> "walk", cn |-> c.name, curve |-> (IF k = KFrom THEN c ELSE << >>), s |-> s, base |-> B(c, s), k |-> k, P |-> P,
-                       sel |-> Selected(s, k), ext |-> ext]))
+Emit == PrintT(ToJson([gen |-> "walk", cn |-> c.name, curve |-> (IF kk = KFrom THEN c ELSE << >>), s |-> bs, base |-> B(c, bs), k |-> kk, P |-> cur,
+                       sel |-> Selected(bs, kk), ext |-> ext]))
 =============================================================================
